@@ -102,3 +102,34 @@ func TestVerif_C04Codec(t *testing.T) {
 			return c04CaseOf(combo, c04EntropyGen.Draw(rt, "entropy"), rapid.Bool().Draw(rt, "wide"))
 		}, c04cRun)
 }
+
+// TestVerif_C06Wire: the same path judged for C06 - the id that reaches the wire
+// through the real Encoder is the registered id (a table that is right while the
+// encoder writes another id would not help a client).
+func TestVerif_C06Wire(t *testing.T) {
+	combos := c04Combos()
+	verifkit.Check(t, "C06", "wire-id",
+		"every registered (state, direction, protocol, type) - sampled - written with the real codec.Encoder.WritePacket; oracle: the VarInt at the start of the frame's payload is the id the registry lists for that type, and codec.Decoder maps it back to the same type (plus the body agreement of C04's codec-path); non-trivial = non-empty body",
+		func(rt *rapid.T) c04Case {
+			hb := rapid.SliceOfN(rapid.Byte(), 4, 4).Draw(rt, "registration")
+			h := uint32(2166136261)
+			for _, x := range hb {
+				h = (h ^ uint32(x)) * 16777619
+			}
+			h ^= h >> 15
+			combo := combos[int(h%uint32(len(combos)))]
+			// ids of 0x80 and above need two VarInt bytes: make sure they are sampled
+			if rapid.IntRange(0, 3).Draw(rt, "highId") == 0 {
+				var high []int
+				for i, cb := range combos {
+					if int(cb.ID) >= 0x80 {
+						high = append(high, i)
+					}
+				}
+				if len(high) > 0 {
+					combo = combos[high[int(h%uint32(len(high)))]]
+				}
+			}
+			return c04CaseOf(combo, c04EntropyGen.Draw(rt, "entropy"), false)
+		}, c04cRun)
+}
